@@ -3,7 +3,12 @@ package props
 import (
 	"fmt"
 	"math/big"
+	"os"
+	"os/exec"
+	"path/filepath"
 	"runtime"
+	"sort"
+	"strings"
 	"sync"
 	"sync/atomic"
 	"time"
@@ -62,6 +67,7 @@ func init() {
 	vrt.Register(&vrt.Prop{
 		ID: "C17", Level: "exploration",
 		Rule: "case = a FRESH circuit value (generated, 3-400 gates, or parsed AES-128 in thorough) shared by G in {2,4,16,64} goroutines released by a barrier (so lazy pool creation is raced); each goroutine runs 30-300 operations drawn from {Garble, Garble on a label source that dies after a PRNG number of bytes, Eval on its own garbling, Compute, Release, double Release, hold-and-recheck, keep the slices of a garbling but drop its handle and never release it (a few garbage collections are forced while such orphans are alive)} with its own deterministic label stream. Runs under the Go race detector. " +
+			"Every second case runs without any synchronisation of the monitor between the goroutines (a monitor mutex orders all operations for the race detector and hides races across operations): pointers, live intervals and operation end times are logged per goroutine from the monotonic clock and judged after the join. Every sixth case is a release storm in a child process of the non-race build on all cores: a circuit of 20000-200000 wires whose garbled rows come first, half of the goroutines garble-checksum-release in bursts of 2-4, the other half garble, evaluate and never release (so their Garble takes what other Ps just put back) - the race detector does not instrument the clear() builtin, so a write into scratch that was already handed back shows only as another goroutine's live garbling changing. " +
 			"Oracles: zero race reports with circuit frames; Compute equals the reference evaluation; each Eval on the goroutine's own garbling decodes to the reference; a deep snapshot of a live garbling taken after Garble equals the garbling right before Release (nobody else wrote into its scratch); no two live garblings share a backing array. Distinct = hash of the completion order of operations (distinct interleavings observed).",
 		Assumptions: []string{"race reports vary from run to run: the script is repeated on fresh circuits"},
 		NumCases: func(t string) int {
@@ -83,7 +89,68 @@ func init() {
 	})
 }
 
+// c17Storm runs the release storm (c17storm.go) in a child process of the
+// non-race build on all cores.
+func c17Storm(cs *vrt.Case) {
+	r := cs.Rng
+	self, err := os.Executable()
+	if err != nil {
+		cs.Inconc(err.Error())
+		return
+	}
+	bin := filepath.Join(filepath.Dir(self), "vcheck")
+	gates := vrt.Pick(r, []int{20000, 60000})
+	if cs.Thorough() {
+		gates = vrt.Pick(r, []int{20000, 60000, 200000})
+	}
+	G := vrt.Pick(r, []int{8, 16, 32})
+	seed := r.U64()
+	desc := map[string]any{"kind": "release storm in a non-race child process", "seed": seed, "gates": gates, "goroutines": G}
+	cs.SetSample(desc)
+	cmd := exec.Command(bin, "aux", "c17storm", fmt.Sprint(seed), fmt.Sprint(gates), fmt.Sprint(G), "100")
+	cmd.Env = append(os.Environ(), "GOMAXPROCS="+fmt.Sprint(runtime.NumCPU()))
+	out, err := cmd.CombinedOutput()
+	line := strings.TrimSpace(string(out))
+	if i := strings.LastIndex(line, "STORM "); i >= 0 {
+		line = line[i:]
+	}
+	switch {
+	case strings.HasPrefix(line, "STORM ok"):
+		var g, b, e int64
+		fmt.Sscanf(line, "STORM ok garblings=%d bursts=%d evals=%d", &g, &b, &e)
+		cs.Count("storm_garblings", g)
+		cs.Count("storm_release_bursts", b)
+		cs.Count("storm_evals", e)
+		cs.Count("storm_runs", 1)
+		cs.Evals += g + e
+		cs.Keys = append(cs.Keys, vrt.HashBytes([]byte(fmt.Sprint(seed, gates, G))))
+	case strings.HasPrefix(line, "STORM violation: "):
+		what := strings.TrimPrefix(line, "STORM violation: ")
+		cs.Violate("C17|storm|"+firstWords(what, 5), "release storm: "+what, map[string]any{"case": desc, "replay": fmt.Sprintf("bin/vcheck aux c17storm %d %d %d 100", seed, gates, G)})
+	case err != nil && strings.Contains(string(out), "github.com/markkurossi/mpc/circuit"):
+		cs.Violate("C17|storm|crash", "release storm crashed inside the circuit package: "+trunc(firstLineOf(string(out)), 200), map[string]any{"case": desc, "output": trunc(string(out), 4000)})
+	default:
+		cs.Inconc(fmt.Sprintf("storm child: %v %s", err, trunc(line, 200)))
+	}
+}
+
+func firstLineOf(s string) string {
+	for _, l := range strings.Split(s, "\n") {
+		if strings.HasPrefix(l, "panic:") || strings.HasPrefix(l, "fatal error:") {
+			return l
+		}
+	}
+	if i := strings.IndexByte(s, '\n'); i > 0 {
+		return s[:i]
+	}
+	return s
+}
+
 func runC17(cs *vrt.Case) {
+	if cs.Idx%6 == 5 && !(cs.Thorough() && cs.Idx%40 == 39) {
+		c17Storm(cs)
+		return
+	}
 	r := cs.Rng
 	var c *circuit.Circuit
 	what := "generated"
@@ -119,6 +186,24 @@ func runC17(cs *vrt.Case) {
 	desc := map[string]any{"circuit": what, "gates": len(c.Gates), "goroutines": G, "ops_per_goroutine": nops}
 	cs.SetSample(desc)
 
+	// Half of the cases run WITHOUT any synchronisation between the goroutines
+	// after the barrier: a mutex (or an atomic) of the monitor that every
+	// goroutine passes after each operation orders all operations of different
+	// goroutines for the race detector and hides every race whose two accesses
+	// lie in different operations (a wipe after the scratch went back to the
+	// pool, say). In those cases each goroutine logs (pointer, live interval)
+	// and operation end times from the monotonic clock locally, and the
+	// sharing oracle and the completion order are evaluated after the join.
+	unsync := cs.Idx%2 == 1
+	desc["monitor"] = map[bool]string{false: "online under one mutex", true: "goroutine-local logs, no synchronisation between goroutines"}[unsync]
+	base := time.Now()
+	type ival struct {
+		ptr    uintptr
+		t1, t2 time.Duration
+		owner  int
+	}
+	allIvals := make([][]ival, G)
+	allEnds := make([][]time.Duration, G)
 	var mu sync.Mutex
 	livePtr := map[uintptr]int{} // backing array of Wires -> owner
 	everPtr := map[uintptr]bool{}
@@ -149,8 +234,18 @@ func runC17(cs *vrt.Case) {
 			orphans := 0
 			reuseKeyBuf := id%2 == 1
 			local := map[string]int64{}
+			var ivals []ival // unsync: one per garbling of this goroutine
+			var ends []time.Duration
+			ivalOf := map[*c17Live]int{}
 			defer func() {
 				// also on the early return after a reported problem
+				now := time.Since(base)
+				for i := range ivals {
+					if ivals[i].t2 == 0 {
+						ivals[i].t2 = now
+					}
+				}
+				allIvals[id], allEnds[id] = ivals, ends
 				mu.Lock()
 				for _, l := range mine {
 					// the handles die with this goroutine: their memory may be
@@ -208,16 +303,21 @@ func runC17(cs *vrt.Case) {
 					if len(l.gw) > 0 {
 						l.wptr = uintptr(unsafe.Pointer(&l.gw[0]))
 					}
-					mu.Lock()
-					if o, dup := livePtr[l.wptr]; dup && l.wptr != 0 {
-						problems = append(problems, fmt.Sprintf("two live garblings share one backing array (goroutines %d and %d)", o, id))
+					if unsync {
+						ivalOf[l] = len(ivals)
+						ivals = append(ivals, ival{ptr: l.wptr, t1: time.Since(base), owner: id})
+					} else {
+						mu.Lock()
+						if o, dup := livePtr[l.wptr]; dup && l.wptr != 0 {
+							problems = append(problems, fmt.Sprintf("two live garblings share one backing array (goroutines %d and %d)", o, id))
+						}
+						livePtr[l.wptr] = id
+						if everPtr[l.wptr] {
+							local["reused_scratch"]++
+						}
+						everPtr[l.wptr] = true
+						mu.Unlock()
 					}
-					livePtr[l.wptr] = id
-					if everPtr[l.wptr] {
-						local["reused_scratch"]++
-					}
-					everPtr[l.wptr] = true
-					mu.Unlock()
 					mine = append(mine, l)
 					local["garblings"]++
 				case k < 6: // Eval own
@@ -274,7 +374,7 @@ func runC17(cs *vrt.Case) {
 					local["computes"]++
 				case k == 7: // hold-and-recheck
 					l := mine[rr.Intn(len(mine))]
-					if l.orphan && gcs.Add(1) <= 4 {
+					if l.orphan && ((unsync && id < 4 && local["collections_with_orphans_alive"] == 0) || (!unsync && gcs.Add(1) <= 4)) {
 						runtime.GC() // a dropped handle may be collected; the slices it handed out are still ours
 						local["collections_with_orphans_alive"]++
 					}
@@ -293,9 +393,13 @@ func runC17(cs *vrt.Case) {
 						report("a live garbling changed before its Release: " + d)
 						return
 					}
-					mu.Lock()
-					delete(livePtr, l.wptr)
-					mu.Unlock()
+					if unsync {
+						ivals[ivalOf[l]].t2 = time.Since(base)
+					} else {
+						mu.Lock()
+						delete(livePtr, l.wptr)
+						mu.Unlock()
+					}
 					l.g.Release()
 					if rr.Intn(3) == 0 {
 						l.g.Release() // idempotent
@@ -304,9 +408,13 @@ func runC17(cs *vrt.Case) {
 					mine = append(mine[:i], mine[i+1:]...)
 					local["releases"]++
 				}
-				mu.Lock()
-				order = append(order, byte(id))
-				mu.Unlock()
+				if unsync {
+					ends = append(ends, time.Since(base))
+				} else {
+					mu.Lock()
+					order = append(order, byte(id))
+					mu.Unlock()
+				}
 			}
 			for _, l := range mine {
 				if d := sameGarbling(l); d != "" {
@@ -317,6 +425,47 @@ func runC17(cs *vrt.Case) {
 	}
 	close(start)
 	wg.Wait()
+	if unsync {
+		// the sharing oracle over the logged live intervals: [after Garble
+		// returned, before Release was called] is an inner bound of a
+		// garbling's life, so two overlapping intervals on one backing array
+		// were two live garblings
+		byPtr := map[uintptr][]ival{}
+		for _, iv := range allIvals {
+			for _, v := range iv {
+				if v.ptr != 0 {
+					byPtr[v.ptr] = append(byPtr[v.ptr], v)
+				}
+			}
+		}
+		for _, list := range byPtr {
+			sort.Slice(list, func(i, j int) bool { return list[i].t1 < list[j].t1 })
+			if len(list) > 1 {
+				counters["reused_scratch"] += int64(len(list) - 1)
+			}
+			for i := 1; i < len(list); i++ {
+				if list[i].t1 < list[i-1].t2 {
+					problems = append(problems, fmt.Sprintf("two live garblings share one backing array (goroutines %d and %d)", list[i-1].owner, list[i].owner))
+					break
+				}
+			}
+		}
+		type end struct {
+			t  time.Duration
+			id int
+		}
+		var all []end
+		for id, es := range allEnds {
+			for _, t := range es {
+				all = append(all, end{t, id})
+			}
+		}
+		sort.Slice(all, func(i, j int) bool { return all[i].t < all[j].t })
+		for _, e := range all {
+			order = append(order, byte(e.id))
+		}
+		cs.Count("cases_without_monitor_synchronisation", 1)
+	}
 	for k, v := range counters {
 		cs.Count(k, v)
 		cs.Evals += v
